@@ -73,18 +73,30 @@ def _grid_storage_chunk(interp, g):
     return wrap(z3.If(tz(f) > 1, tz(f), 1)) if sym.is_sym(f) else max(f, 1)
 
 
-def sym_array(c, label, ndim, spec=None, dtype=None, min_extent=0, kind="lazy", single_chunk_axes=()):
+def sym_array(c, label, ndim, spec=None, dtype=None, min_extent=None, kind="lazy", single_chunk_axes=(), fixed=None):
+    """A symbolic cubed Array satisfying the class invariant established by CoreArray.__init__ + normalize_chunks:
+    per axis extent n >= 0 and chunk size 1 <= ch <= max(n, 1) (regular grid ChunkSeq(n, ch)).
+    In the quick tier arrays are non-empty (n >= 1) unless the contract asks otherwise; the thorough tier
+    includes zero-length axes."""
+    if min_extent is None:
+        min_extent = 0 if c.cfg.get("_tier") == "thorough" or c.cfg.get("empty") else 1
     shape, grids = [], []
     for i in range(ndim):
-        n = c.int(f"{label}_n{i}", lo=min_extent)
+        if fixed and i in fixed:
+            n = fixed[i]
+        else:
+            n = c.int(f"{label}_n{i}", lo=min_extent)
         ch = c.int(f"{label}_c{i}", lo=1)
         c.assume(c.Or(ch <= n, c.And(n == 0, ch == 1)))
+        g = ChunkSeq(n, ch, canonical=True)
         if i in single_chunk_axes:
             c.assume(c.Or(ch == n, n == 0))
         shape.append(n)
-        grids.append(ChunkSeq(n, ch))
+        grids.append(g)
     if dtype is None:
-        dtype = Dtype(f"{label}.dtype", c.int(f"{label}_itemsize", lo=1))
+        dtype = getattr(c, "default_dtype", None)
+        if dtype is None:
+            dtype = c.default_dtype = Dtype("dtype", c.int("itemsize", lo=1))
     if spec is None:
         spec = getattr(c, "default_spec", None)
         if spec is None:
@@ -425,6 +437,18 @@ class SymBlock:
         return f"<SymBlock {self.label} shape={self.shape}>"
 
 
+def concretize(interp, v, cap, why):
+    """Fork over v == 0..cap when the path condition bounds v by cap (exhaustive), else give up (undecided)."""
+    if isinstance(v, int):
+        return v
+    c = interp.ctx
+    if not c.entails(tz(v) <= cap) or not c.entails(tz(v) >= 0):
+        raise Unsupported(why)
+    for i in range(cap + 1):
+        if i == cap or c.branch(tz(v) == i):
+            return i
+
+
 class _NXP:
     """Assumed shape / index-map contracts of the NumPy kernels called by cubed's block functions."""
 
@@ -588,14 +612,20 @@ class _NXP:
         ax = self._axis(axis, x.ndim)
         n = x.shape[ax]
         if not isinstance(n, int):
-            interp = self._interp()
-            # enumerate small concrete extents along the unstacked axis is not possible symbolically
-            raise Unsupported("unstack of a block with symbolic extent along the axis")
+            n = concretize(self._interp(), n, 6, "unstack of a block with unbounded symbolic extent along the axis")
         out = []
         for j in range(n):
             idx = tuple(j if i == ax else slice(None) for i in range(x.ndim))
             out.append(x._pyvc_getitem(self._interp(), idx))
         return tuple(out)
+
+    def __array_namespace_info__(self):
+        class _Info:
+            def default_dtypes(self, device=None):
+                return {"real floating": Dtype("float64", 8), "integral": Dtype("int64", 8),
+                        "indexing": Dtype("int64", 8), "complex floating": Dtype("complex128", 16)}
+
+        return _Info()
 
     def __getattr__(self, name):
         raise Unsupported(f"numpy kernel nxp.{name} has no assumed contract")
@@ -698,8 +728,13 @@ def prelude(c):
 
     S["cubed.vendor.dask.utils:has_keyword"] = has_keyword
 
-    def check_specs(it, fn, a, k):
-        return None
+    def result_type(it, fn, a, k):
+        dts = [getattr(x, "dtype", x) for x in a]
+        if all(d is dts[0] for d in dts):
+            return dts[0]
+        raise Unsupported("dtype promotion between different symbolic dtypes")
+
+    S["cubed.array_api.data_type_functions:result_type"] = result_type
 
     return S
 
